@@ -4,10 +4,12 @@ from props.common import bj
 LEVEL = 'exploration'
 CONTRACT_MODULES = []
 DEDUCTIVE = []
-EXPLANATION = 'bounded stand-in: graph-shape predicate and RDF round trip over enumerated documents and serialisations'
+EXPLANATION = 'bounded stand-in: graph-shape predicate and RDF round trip over enumerated documents and serialisations; usage histories of one writer / one reader instance (every export or import entry point 1..3 times in every order, edits in between)'
 
 def bounded_jobs(tier, seed):
     return [
         bj('rcc.b_C10', 'run_graph_shape', tier, seed),
         bj('rcc.b_C10', 'run_roundtrip', tier, seed),
+        bj('rcc.b_C10', 'run_writer_history', tier, seed),
+        bj('rcc.b_C10', 'run_reader_history', tier, seed),
     ]
